@@ -144,6 +144,18 @@ def run(R):
                    site(rx, c))
         else:
             R.ok('C06.ORD.1', inst, site(rx, c), f'echoed by {len(wnodes)} write(s)')
+    # who-may-read: the framing code takes bytes from the stream only through readexactly (a short read would desynchronise)
+    for cxx in (cx, rx):
+        for n in cxx.cfg.nodes:
+            for c in n.calls():
+                if isinstance(c.func, ast.Attribute) and c.func.attr in ('read', 'readline', 'readuntil', 'readexactly') \
+                        and 'reader' in ast.unparse(c.func.value):
+                    inst = f'{cxx.qual} :: {norm(c)}'
+                    if c.func.attr == 'readexactly':
+                        R.ok('C06.ORD.1', inst, site(cxx, c), 'exact read')
+                    else:
+                        R.fail('C06.ORD.1', inst, cxx.qual, c, f'stream bytes are taken with {c.func.attr}(), which may return fewer bytes '
+                               'than requested when the packet is cut at this point', site(cxx, c))
     R.minimum('C06.ORD.1', 5)
     # width table of the stream reader == parse_tl_num  (shared with C08.TBL.1)
     from ..tlvtables import varnum_tables, compare_varnum
